@@ -254,10 +254,12 @@ def check_cfg(ctx, rep, f, cfg):
     rep.floor("R1", total_sites, 8, "TwoFloat aggregate sites" + sfx)
     # constants: every TwoFloat / [TwoFloat; N] constant is valid or an explicit non-finite marker
     n_c = 0; n_w = 0
+    NEWTYPES = {F.norm_path(sd["path"]): F.norm_ty(sd["fields"][0]["ty"]) for sd in f.structs if len(sd.get("fields", [])) == 1 and sd["fields"][0].get("ty")}
     for c in f.consts:
         if "::tests::" in c["key"] or "::test::" in c["key"]:
             continue
         ty = F.norm_ty(c["ty"])
+        ty = NEWTYPES.get(ty, ty)       # a private newtype around a table holds the table's words
         if ty != TF and not ty.startswith("[TwoFloat;"):
             continue
         v = c.get("val") or {}
